@@ -81,7 +81,7 @@ pub fn check(case: &SetCase) -> Verdict {
     Ok(())
 }
 
-fn random_case(bytes: &[u8]) -> SetCase {
+pub(crate) fn random_case(bytes: &[u8]) -> SetCase {
     let mut d = Dec::new(bytes);
     let fns = gen_fns(&mut d, true);
     let nrules = 1 + d.below(5);
@@ -99,7 +99,8 @@ fn random_case(bytes: &[u8]) -> SetCase {
 /// small exhaustive family: two call sites over every ordered pair of similar arguments x
 /// {same function, different function} x {cacheable, not} x {no failure, fails on first argument}
 fn family() -> Vec<SetCase> {
-    let args = similar_args();
+    let mut args = similar_args();
+    args.extend(long_twin_args());
     let mut out = vec![];
     for a in &args {
         for b in &args {
@@ -136,7 +137,7 @@ pub fn run(ctx: &Ctx) {
         "Generated call histories: (1) exhaustive family: two/three call sites over every ordered pair of 17 equal / similar-but-distinct \
          arguments (i1 \"1\" \"i1\" [i1] f1 d1 {a:i1} [[i1]] i11 \"\" none true [i1,i1] [\"1\"] i-1 datetime duration) x same / \
          different function x cacheable / not x no failure / failure on the first argument x one rule / two rules, each evaluated \
-         twice; (2) random rulesets of 1-5 rules whose expressions are lists, maps, conditionals, comparisons and nestings of calls \
+         twice; evaluations with 129-1000 distinct calls, each repeated; interleaved evaluations of one ruleset under a harness-owned schedule (every evaluation's invocations are its own); (2) random rulesets of 1-5 rules whose expressions are lists, maps, conditionals, comparisons and nestings of calls \
          to 2-4 probes (cacheable or not) with failure sets and fail-the-first-n plans, evaluated 1-3 times in a row. Oracle: the cache \
          model (per evaluation; key = function and argument identity; insert on success only; non-cacheable always invoked): the \
          number of invocations per (function, argument) and every outcome value equal the model's; a failing call surfaces as a \
@@ -146,7 +147,7 @@ pub fn run(ctx: &Ctx) {
     );
     ctx.assume("probe results are a pure function of (function, argument); invocations are observed through the probes' own log");
 
-    super::regressions::run(ctx, "C11", |j| SetCase::from_json(j).map(|c| check(&c)));
+    super::regressions::run(ctx, "C11", replay);
 
     let fam = family();
     ctx.enumerate(
@@ -162,6 +163,66 @@ pub fn run(ctx: &Ctx) {
         },
         |i| fam[i as usize].to_json(),
         "setcase",
+    );
+
+    // one evaluation with many distinct calls, each repeated later: however many results an evaluation holds, every
+    // repeat of a cacheable call is served from them and every non-cacheable call is invoked
+    let big: Vec<SetCase> = [129usize, 300, 1000]
+        .iter()
+        .flat_map(|&n| {
+            [true, false].into_iter().map(move |cacheable| {
+                let mut fns = BTreeMap::new();
+                fns.insert("fa".to_string(), me::FnSpec { cacheable, fail_on: vec![], fail_first: 0 });
+                fns.insert("fb".to_string(), me::FnSpec { cacheable: true, fail_on: vec![me::arg_key(&Value::Int(7))], fail_first: 0 });
+                let call = |f: &str, k: usize| Expr::func(f, Expr::value(k as i128));
+                let first: Vec<Expr> = (0..n).map(|k| call(if k % 5 == 4 { "fb" } else { "fa" }, k)).filter(|e| !matches!(e, Expr::Function(f, a) if f == "fb" && matches!(**a, Expr::Value(Value::Int(7))))).collect();
+                let again = first.clone();
+                SetCase {
+                    spec: SetSpec {
+                        rules: vec![("r0".to_string(), Expr::Vec(first)), ("r1".to_string(), Expr::Vec(again.into_iter().rev().collect()))],
+                        fns,
+                        symbols: BTreeMap::new(),
+                        suspend: 0,
+                    },
+                    inputs: vec![Value::None, Value::None],
+                }
+            })
+        })
+        .collect();
+    ctx.enumerate(
+        "large-evaluations",
+        big.len() as u64,
+        true,
+        |i, acc| {
+            acc.cell("large", true);
+            acc.sample("large", || format!("{} call sites repeated once in a second rule", match &big[i as usize].spec.rules[0].1 { Expr::Vec(v) => v.len(), _ => 0 }));
+            check(&big[i as usize])
+        },
+        |i| big[i as usize].to_json(),
+        "setcase",
+    );
+
+    // the same cache model when evaluations of one ruleset are interleaved (the schedule is owned by the harness, as in C12):
+    // each evaluation's invocations are what it makes on its own
+    let ni = ctx.tier.pick(20_000u64, 400_000u64);
+    ctx.random(
+        "interleaved-evaluations",
+        ni,
+        || gen::recipe(400),
+        |bytes, acc| {
+            let c = super::c12::random_case(bytes);
+            if let Some(acc) = acc {
+                let nt = c.spec.suspend >= 1 && c.inputs.len() >= 2;
+                acc.case(if nt { "interleaved:suspending" } else { "interleaved:other" }, nt, || super::c12::render(&c));
+            }
+            super::c12::check(&c).map_err(|i| Issue::new(i.sig.replace("sched:", "cache:interleaved:"), i.msg))
+        },
+        |bytes| {
+            let mut j = super::c12::random_case(bytes).to_json();
+            j["interleaved"] = serde_json::json!(true);
+            j
+        },
+        "sched",
     );
 
     let n = ctx.tier.pick(150_000u64, 3_000_000u64);
@@ -199,5 +260,8 @@ pub fn run(ctx: &Ctx) {
 }
 
 pub fn replay(j: &serde_json::Value) -> Option<Verdict> {
+    if j.get("interleaved").is_some() {
+        return super::c12::replay(j).map(|v| v.map_err(|i| Issue::new(i.sig.replace("sched:", "cache:interleaved:"), i.msg)));
+    }
     SetCase::from_json(j).map(|c| check(&c))
 }
